@@ -191,11 +191,16 @@ struct Elem {
     text: bool,
     empty_form: bool, // written as <e/> (only for leaves without text)
     children: Vec<Elem>,
+    /// a legal, redundant `xmlns:xml="http://www.w3.org/XML/1998/namespace"` written before the other declarations
+    xml_decl: bool,
 }
 
 fn write_elem(e: &Elem, out: &mut Vec<u8>) {
     out.push(b'<');
     out.extend_from_slice(e.name.as_bytes());
+    if e.xml_decl {
+        out.extend_from_slice(b" xmlns:xml='http://www.w3.org/XML/1998/namespace'");
+    }
     for &d in &e.decls {
         let (p, u) = DECLS[d];
         if p.is_empty() {
@@ -254,6 +259,8 @@ struct Step {
     end_idx: usize,
     /// index of the element this step belongs to (pre-order)
     depth: usize,
+    /// Start step of the innermost element that is open after this step (None at top level)
+    enclosing_after: Option<usize>,
 }
 
 fn flatten(e: &Elem, chain: &mut Vec<Scope>, is_root: bool, root_i: bool, expand: bool, out: &mut Vec<Step>) {
@@ -265,23 +272,37 @@ fn flatten(e: &Elem, chain: &mut Vec<Scope>, is_root: bool, root_i: bool, expand
     };
     let depth = chain.len();
     if e.empty_form && !expand {
-        out.push(Step { kind: 2, name: e.name, chain: chain.clone(), has_nil: nil_true, attr: e.attr, end_idx: 0, depth });
+        out.push(Step { kind: 2, name: e.name, chain: chain.clone(), has_nil: nil_true, attr: e.attr, end_idx: 0, depth, enclosing_after: None });
     } else {
         let si = out.len();
-        out.push(Step { kind: 1, name: e.name, chain: chain.clone(), has_nil: nil_true, attr: e.attr, end_idx: 0, depth });
+        out.push(Step { kind: 1, name: e.name, chain: chain.clone(), has_nil: nil_true, attr: e.attr, end_idx: 0, depth, enclosing_after: None });
         if !e.empty_form {
             if e.text {
-                out.push(Step { kind: 4, name: "", chain: chain.clone(), has_nil: false, attr: 0, end_idx: 0, depth });
+                out.push(Step { kind: 4, name: "", chain: chain.clone(), has_nil: false, attr: 0, end_idx: 0, depth, enclosing_after: None });
             }
             for c in &e.children {
                 flatten(c, chain, false, root_i, expand, out);
             }
         }
         let ei = out.len();
-        out.push(Step { kind: 3, name: e.name, chain: chain.clone(), has_nil: false, attr: 0, end_idx: 0, depth });
+        out.push(Step { kind: 3, name: e.name, chain: chain.clone(), has_nil: false, attr: 0, end_idx: 0, depth, enclosing_after: None });
         out[si].end_idx = ei;
     }
     chain.pop();
+}
+
+fn link_enclosing(steps: &mut [Step]) {
+    let mut stack: Vec<usize> = Vec::new();
+    for i in 0..steps.len() {
+        match steps[i].kind {
+            1 => stack.push(i),
+            3 => {
+                stack.pop();
+            }
+            _ => {}
+        }
+        steps[i].enclosing_after = stack.last().copied();
+    }
 }
 
 // ------------------------------------------------------------------------------------------------
@@ -341,7 +362,7 @@ fn seen_of<Rd>(r: &NsReader<Rd>, ev: &Event, resolved: Option<R>, attr: u8) -> S
 /// Runs one consumer history. `choices[k]` is what the consumer does at the k-th Start event it
 /// sees (ReadEvent/ReadResolved decide how *all* following events up to the next Start are read).
 /// Returns a description of the first disagreement with the model.
-fn run_history(input: &[u8], steps: &[Step], expand: bool, src: SrcKind, choices: &[Choice], nstarts_out: &mut usize) -> Result<u64, String> {
+fn run_history(input: &[u8], steps: &[Step], expand: bool, src: SrcKind, choices: &[Choice], late_skip: Option<usize>, nstarts_out: &mut usize) -> Result<u64, String> {
     let script = match src {
         SrcKind::Buf(p) | SrcKind::Async(p) => Script::pieces(p),
         SrcKind::Slice => Script::whole(),
@@ -446,33 +467,52 @@ fn run_history(input: &[u8], steps: &[Step], expand: bool, src: SrcKind, choices
                 }
             }
             idx += 1;
+            // what to skip now: the element just opened (ordinary skip), or — at most once per history —
+            // the rest of the innermost element that is still open after this event
+            let mut skip: Option<(usize, Choice)> = None;
             if step.kind == 1 {
                 let choice = choices.get(nstart).copied().unwrap_or(Choice::ReadEvent);
                 nstart += 1;
                 match choice {
                     Choice::ReadEvent | Choice::ReadResolved => mode = choice,
-                    Choice::ReadToEnd | Choice::ReadText => {
-                        let name = step.name.as_bytes();
-                        let res: Result<(), String> = match (src, choice) {
-                            (SrcKind::Slice, Choice::ReadToEnd) => slice_reader.read_to_end(QName(name)).map(|_| ()).map_err(|e| format!("{:?}", e)),
-                            (SrcKind::Slice, _) => slice_reader.read_text(QName(name)).map(|_| ()).map_err(|e| format!("{:?}", e)),
-                            (SrcKind::Buf(_), _) => { buf.clear(); io_reader.read_to_end_into(QName(name), &mut buf).map(|_| ()).map_err(|e| format!("{:?}", e)) }
-                            (SrcKind::Async(_), _) => { buf.clear(); block_on(io_reader.read_to_end_into_async(QName(name), &mut buf), 4 * horizon).ok_or("stuck")?.map(|_| ()).map_err(|e| format!("{:?}", e)) }
-                        };
-                        calls += 1;
-                        res.map_err(|e| ctx(&format!("skipping the element failed: {}", e)))?;
-                        // the element has ended: directly after the call either its own scope (as after an
-                        // End event, "until the next read") or already its parent's scope may be visible
-                        let now = match src {
-                            SrcKind::Slice => observe(&slice_reader),
-                            _ => observe(&io_reader),
-                        };
-                        let own = model_state(&step.chain);
-                        let parent = model_state(&step.chain[..step.chain.len() - 1]);
-                        if now != own && now != parent {
-                            return Err(ctx(&format!("after skipping the element the namespace state is {:?}; neither the element's scope {:?} nor its parent's {:?}", now, own, parent)));
-                        }
-                        idx = step.end_idx + 1;
+                    Choice::ReadToEnd | Choice::ReadText => skip = Some((cur, choice)),
+                }
+            }
+            if skip.is_none() && late_skip == Some(cur) {
+                if let Some(enc) = step.enclosing_after {
+                    skip = Some((enc, Choice::ReadToEnd));
+                }
+            }
+            let mut pending = skip;
+            let mut second = false;
+            while let Some((start_idx, choice)) = pending.take() {
+                let target = &steps[start_idx];
+                let name = target.name.as_bytes();
+                let res: Result<(), String> = match (src, choice) {
+                    (SrcKind::Slice, Choice::ReadText) => slice_reader.read_text(QName(name)).map(|_| ()).map_err(|e| format!("{:?}", e)),
+                    (SrcKind::Slice, _) => slice_reader.read_to_end(QName(name)).map(|_| ()).map_err(|e| format!("{:?}", e)),
+                    (SrcKind::Buf(_), _) => { buf.clear(); io_reader.read_to_end_into(QName(name), &mut buf).map(|_| ()).map_err(|e| format!("{:?}", e)) }
+                    (SrcKind::Async(_), _) => { buf.clear(); block_on(io_reader.read_to_end_into_async(QName(name), &mut buf), 4 * horizon).ok_or("stuck")?.map(|_| ()).map_err(|e| format!("{:?}", e)) }
+                };
+                calls += 1;
+                res.map_err(|e| ctx(&format!("skipping element {:?} failed: {}", target.name, e)))?;
+                // the element has ended: directly after the call either its own scope (as after an
+                // End event, "until the next read") or already its parent's scope may be visible
+                let now = match src {
+                    SrcKind::Slice => observe(&slice_reader),
+                    _ => observe(&io_reader),
+                };
+                let own = model_state(&target.chain);
+                let parent = model_state(&target.chain[..target.chain.len() - 1]);
+                if now != own && now != parent {
+                    return Err(ctx(&format!("after skipping element {:?} the namespace state is {:?}; neither the element's scope {:?} nor its parent's {:?}", target.name, now, own, parent)));
+                }
+                idx = target.end_idx + 1;
+                // two skips in a row: the element just skipped, then the rest of its parent
+                if !second && late_skip == Some(cur) && start_idx == cur {
+                    if let Some(enc) = steps[target.end_idx].enclosing_after {
+                        pending = Some((enc, Choice::ReadToEnd));
+                        second = true;
                     }
                 }
             }
@@ -509,7 +549,7 @@ fn walk(acc: &mut Acc, order: (u32, u64), input: &[u8], steps: &[Step], expand: 
             }
             None => {
                 acc.evaluations += 1;
-                run_history(input, steps, expand, src, &prefix, &mut nstarts)
+                run_history(input, steps, expand, src, &prefix, None, &mut nstarts)
             }
         };
         match outcome {
@@ -519,6 +559,35 @@ fn walk(acc: &mut Acc, order: (u32, u64), input: &[u8], steps: &[Step], expand: 
                     acc.traces += 1;
                     if prefix.iter().any(|c| matches!(c, Choice::ReadToEnd | Choice::ReadText)) {
                         acc.nt_count += 1;
+                    }
+                }
+                // late skips: on histories that only read (fully decided ones), skip the rest of the
+                // innermost open element after every single event
+                if known_starts.is_none() && prefix.len() >= nstarts {
+                    let has_skip = prefix.iter().any(|c| matches!(c, Choice::ReadToEnd | Choice::ReadText));
+                    for p in 0..steps.len() {
+                        // read-only histories: after every child event (after a Start it would be the ordinary
+                        // skip explored above); histories with skips: at the Start steps, where a skipped
+                        // element is followed at once by the skip of the rest of its parent
+                        let useful = if has_skip { steps[p].kind == 1 && steps[steps[p].end_idx].enclosing_after.is_some() } else { steps[p].kind != 1 && steps[p].enclosing_after.is_some() };
+                        if !useful {
+                            continue;
+                        }
+                        let mut n2 = 0;
+                        acc.evaluations += 1;
+                        match run_history(input, steps, expand, src, &prefix, Some(p), &mut n2) {
+                            Ok(calls) => {
+                                acc.transitions += calls;
+                                acc.traces += 1;
+                                acc.nt_count += 1;
+                                acc.count("late_skip_histories", 1);
+                            }
+                            Err(what) => acc.violation(
+                                order,
+                                format!("document {:?} expand_empty={} source {:?} history {:?} + skip of the enclosing element after event #{}: {}", lossy(input), expand, src, prefix, p, what),
+                                json!({"doc": doc_json(), "input": bytes_json(input), "expand": expand, "source": format!("{:?}", src), "history": prefix.iter().map(|c| format!("{:?}", c)).collect::<Vec<_>>(), "late_skip": p}),
+                            ),
+                        }
                     }
                 }
                 if prefix.len() < nstarts {
@@ -570,8 +639,12 @@ fn build_doc(f: &Family, mut i: u64, thorough: bool) -> Option<Elem> {
     let c_attr = take(3) as u8;
     let nil = take(3) as u8; // 0 none, 1 xsi:nil on the innermost of c's subtree, 2 i:nil (i bound on root) on it
     let leaf_form = take(3); // 0 <e/>, 1 <e></e>, 2 <e>t</e>
+    let c_xml = take(2) == 1;
     if i != 0 {
         return None;
+    }
+    if c_xml && (nil != 0 || leaf_form != 1 || c_attr != 0) {
+        return None; // the redundant xmlns:xml declaration is combined with one representative of the other dimensions
     }
     let has_g = shape == 1 || shape == 3;
     let has_c2 = shape >= 2;
@@ -583,39 +656,44 @@ fn build_doc(f: &Family, mut i: u64, thorough: bool) -> Option<Elem> {
         text: leaf_form == 2,
         empty_form: leaf_form == 0,
         children: vec![],
+        xml_decl: false,
     };
     let c = if has_g {
-        Elem { name: "p:a", decls: cd, attr: c_attr, nil: 0, text: false, empty_form: false, children: vec![leaf(g_name, gd, 0, nil)] }
+        Elem { name: "p:a", decls: cd, attr: c_attr, nil: 0, text: false, empty_form: false, children: vec![leaf(g_name, gd, 0, nil)], xml_decl: c_xml }
     } else {
         if !gd.is_empty() || g_name != "p:a" {
             return None; // unused dimensions: keep one representative
         }
-        leaf("p:a", cd, c_attr, nil)
+        let mut l = leaf("p:a", cd, c_attr, nil);
+        l.xml_decl = c_xml;
+        l
     };
     let mut children = vec![c];
     if has_c2 {
-        children.push(Elem { name: "q:a", decls: c2d, attr: 2, nil: 0, text: false, empty_form: true, children: vec![] });
+        children.push(Elem { name: "q:a", decls: c2d, attr: 2, nil: 0, text: false, empty_form: true, children: vec![], xml_decl: false });
     } else if !c2d.is_empty() {
         return None;
     }
-    Some(Elem { name: "r", decls: rd, attr: 0, nil: 0, text: false, empty_form: false, children })
+    Some(Elem { name: "r", decls: rd, attr: 0, nil: 0, text: false, empty_form: false, children, xml_decl: false })
 }
 
 fn family_size(f: &Family, _thorough: bool) -> u64 {
     let s = f.sets.len() as u64;
     let m = f.small_sets.len() as u64;
-    4 * s * s * m * m * 2 * 3 * 3 * 3
+    4 * s * s * m * m * 2 * 3 * 3 * 3 * 2
 }
 
 pub fn run(ctx: &Ctx) {
     ctx.set_rule(
         "documents: root r with child c = p:a, optional grandchild g (p:a or a: same-name nesting), optional sibling c2 = q:a; \
          r and c carry every declaration set (quick: size <=1, thorough: size <=2; thorough g/c2: size <=1, quick g/c2: {none, xmlns:p=u2, xmlns=''}) out of {xmlns=u1, xmlns='', xmlns:p=u1, \
-         xmlns:p=u2, xmlns:p='', xmlns:q=u1}, g and c2 every set of size <=1; c optionally has attribute x or p:x; the innermost \
+         xmlns:p=u2, xmlns:p='', xmlns:q=u1}, g and c2 every set of size <=1; c optionally has attribute x or p:x; c optionally starts with a legal redundant xmlns:xml declaration; the innermost \
          element optionally has xsi:nil (xsi declared in place, or prefix i bound on the root); leaves written <e/>, <e></e> or \
          <e>t</e>. For every document x expand_empty_elements on/off x source (slice; buffered pieces 1 and whole; async pieces 1) \
          EVERY consumer history is walked: at each Start the consumer picks read_event / read_resolved_event (mode for the \
-         following events) / read_to_end / read_text (slice only). After every call the observable namespace state \
+         following events) / read_to_end / read_text (slice only); and, on histories that only read, additionally skips the REST of the innermost open \
+         element after every single child event (End / Empty / Text), and histories with skips additionally skip the rest of the parent \
+         immediately after a skipped element (two skips in a row). After every call the observable namespace state \
          (resolve_element and resolve_attribute of six probe names n, p:n, q:n, xml:n, xmlns:n, z:n; prefixes() as a map; the \
          event's own name and attribute; the ResolveResult of read_resolved_event; has_nil) is compared with a scope chain computed \
          from the document tree. Directly after a skip both the element's own scope and its parent's are accepted; from the next \
@@ -640,6 +718,7 @@ pub fn run(ctx: &Ctx) {
         for expand in [false, true] {
             let mut steps = Vec::new();
             flatten(&doc, &mut Vec::new(), true, root_i, expand, &mut steps);
+            link_enclosing(&mut steps);
             for s in &steps {
                 acc.state(h64(&model_state(&s.chain)));
             }
@@ -713,7 +792,9 @@ pub fn replay(case: &Value) -> Result<(), String> {
     }).collect()).unwrap_or_default();
     let mut steps = Vec::new();
     flatten(&doc, &mut Vec::new(), true, root_i, expand, &mut steps);
-    println!("document {:?} expand={} source {:?} history {:?}", lossy(&input), expand, src, hist);
+    link_enclosing(&mut steps);
+    let late = case.get("late_skip").and_then(|l| l.as_u64()).map(|l| l as usize);
+    println!("document {:?} expand={} source {:?} history {:?} late skip after event {:?}", lossy(&input), expand, src, hist, late);
     let mut n = 0;
-    run_history(&input, &steps, expand, src, &hist, &mut n).map(|_| ())
+    run_history(&input, &steps, expand, src, &hist, late, &mut n).map(|_| ())
 }
